@@ -57,7 +57,18 @@ class Conn:
     def has_pending(self):
         if not self.out:
             self.pump()
+        # a delay in front of the next bytes: for select()-driven callers the wait simply passes
+        while self.out and isinstance(self.out[0], tuple) and self.out[0][0] == 'delay':
+            d = self.out.popleft()[1]
+            self.world.advance(d if not isinstance(d, str) else 0.0)
         return bool(self.out)
+
+    def pop_delay(self):
+        self.out.popleft()
+
+    def reduce_delay(self, dt):
+        d = self.out.popleft()[1] - dt
+        self.out.appendleft(('delay', d))
 
     def to_tool(self, size):
         if not self.out:
@@ -72,6 +83,8 @@ class Conn:
         if head is AGAIN:
             self.out.popleft()
             return AGAIN
+        if isinstance(head, tuple) and head[0] == 'delay':
+            return head
         if self.world.coalesce:
             buf = b''
             while self.out and isinstance(self.out[0], bytes) and len(buf) < size:
@@ -281,6 +294,25 @@ class Conn:
             self.out.append(data[:fault[1]])
             self.out.append(AGAIN)
             self.out.append(data[fault[1]:])
+            return False
+        if kind == 'late_then':      # d seconds of silence, then the message with the inner fault applied
+            self.out.append(('delay', fault[1] if fault[1] == 'timeout' else float(fault[1])))
+            return self._emit_fault(data, site, tree, fault[2])
+        if kind == 'late':           # the whole message after d seconds of silence
+            self.out.append(('delay', fault[1]))
+            self._queue(data)
+            return False
+        if kind == 'split_late':     # the first k bytes at once, the rest d seconds later
+            self.out.append(data[:fault[1]])
+            self.out.append(('delay', fault[2]))
+            self.out.append(data[fault[1]:])
+            return False
+        if kind == 'drip':           # n pieces, each after d seconds
+            n, d = fault[1], fault[2]
+            step = max(1, (len(data) + n - 1) // n)
+            for i in range(0, len(data), step):
+                self.out.append(('delay', d))
+                self.out.append(data[i:i + step])
             return False
         if kind == 'again':          # EAGAIN before the message
             for _ in range(fault[1]):
